@@ -126,6 +126,31 @@ def one(t):
         tree.cleanup()
 
 
+def probe_leak_case(fmt):
+    """`group --transform PROG` starts PROG once to see that it can be launched and kills it. Under the schedule in which the child runs
+    before the kill arrives (forced by delaying the kill in the interposer; standard input is not a terminal), whatever PROG prints must
+    not end up in the report on standard output."""
+    work = lib.mkscratch("c14p")
+    try:
+        base = os.path.join(work, "b")
+        for n, d in (("a", b"x" * 100), ("b", b"x" * 100), ("c", b"y" * 100)):
+            lib.write_file(os.path.join(base, "t", n), d)
+        bind = os.path.join(work, "bin")
+        os.makedirs(bind)
+        with open(os.path.join(bind, "vt_mark"), "w") as f:
+            f.write("#!/bin/sh\nprintf 'PROBE-LEAK\\n'\nexec cat\n")
+        os.chmod(os.path.join(bind, "vt_mark"), 0o755)
+        env = lib.base_env(work, disk_kind="ssd")
+        env["PATH"] = bind + ":" + env["PATH"]
+        env = lib.shim_env(env, root=base)
+        env["FSSHIM_KILL_DELAY_MS"] = "300"
+        r = lib.run_fclones(["group", "t", "-f", fmt, "--transform", "vt_mark"], base, env, timeout=60)
+        return {"fmt": fmt, "rc": r.rc, "leak": b"PROBE-LEAK" in r.out, "stdout": r.out.decode("utf-8", "replace")[:400],
+                "reported": r.out.count(b"/t/a"), "timeout": r.timed_out}
+    finally:
+        lib.rmtree(work)
+
+
 def main(pid, tier):
     chk = lib.Check(pid, tier)
     thorough = tier == "thorough"
@@ -239,6 +264,15 @@ def main(pid, tier):
     gtrace.validate(chk, pid, staged, lambda rid: facts.get(rid))
     for f in facts.values():
         f.pop("stage_lines", None)
+    if pid == "C14":
+        for fmt in ("default", "fdupes", "csv", "json"):
+            pr = probe_leak_case(fmt)
+            if pr["rc"] != 0 or pr["timeout"] or pr["reported"] != 1:
+                raise lib.ToolError(f"probe-leak case did not produce a report: {pr}")
+            if pr["leak"]:
+                chk.violation(f"C14/report-polluted fmt={fmt} by=transform-launch-probe",
+                              "output of the transform program's launch probe is mixed into the report on standard output", pr)
+        chk.cov["probe_leak_cases"] = 4
     chk.cov["evaluations"] = len(facts)
     chk.cov["traces_validated_against_impl"] = len(runs)
     chk.cov["distinct_nontrivial"] = len(nontrivial)
